@@ -107,35 +107,50 @@ def subsets(names):
             yield c
 
 
-def decorate(form, f, shape, sel):
-    """Apply one decorator form; returns the decorated object (may raise)."""
+def decorators(form, sel):
+    """The decorator objects of one form, innermost first."""
     if form == 'kwo>poso':          # kwoargs applied first (inner), posoargs outside
         K, P = sel
-        return M.posoargs(*P)(M.kwoargs(*K)(f))
+        return [M.kwoargs(*K), M.posoargs(*P)]
     if form == 'poso>kwo':
         K, P = sel
-        return M.kwoargs(*K)(M.posoargs(*P)(f))
+        return [M.posoargs(*P), M.kwoargs(*K)]
     if form == 'start':
-        return M.kwoargs(start=sel)(f)
+        return [M.kwoargs(start=sel)]
     if form == 'end':
-        return M.posoargs(end=sel)(f)
+        return [M.posoargs(end=sel)]
     if form == 'start+names':
-        return M.kwoargs(*sel[1], start=sel[0])(f)
+        return [M.kwoargs(*sel[1], start=sel[0])]
     if form == 'end+names':
-        return M.posoargs(*sel[1], end=sel[0])(f)
+        return [M.posoargs(*sel[1], end=sel[0])]
     if form == 'kwo>end':           # kwoargs(K) first, posoargs(end=e) outside
-        return M.posoargs(end=sel[1])(M.kwoargs(*sel[0])(f))
+        return [M.kwoargs(*sel[0]), M.posoargs(end=sel[1])]
     if form == 'end>kwo':
-        return M.kwoargs(*sel[0])(M.posoargs(end=sel[1])(f))
+        return [M.posoargs(end=sel[1]), M.kwoargs(*sel[0])]
     if form == 'poso>start':
-        return M.kwoargs(start=sel[1])(M.posoargs(*sel[0])(f))
+        return [M.posoargs(*sel[0]), M.kwoargs(start=sel[1])]
     if form == 'start>poso':
-        return M.posoargs(*sel[0])(M.kwoargs(start=sel[1])(f))
+        return [M.kwoargs(start=sel[1]), M.posoargs(*sel[0])]
     if form == 'auto':
-        return M.autokwoargs(f)
+        return [M.autokwoargs]
     if form == 'auto-exc':
-        return M.autokwoargs(exceptions=list(sel))(f)
+        return [M.autokwoargs(exceptions=list(sel))]
     raise AssertionError(form)
+
+
+def decorate(form, f, shape, sel):
+    """Apply one decorator form; returns the decorated object (may raise).  The decorator objects are made once and have
+    already been applied to another function of the same shape: a decorator is reusable."""
+    decos = decorators(form, sel)
+    twin = callsem.valued_func(shape, annotate=True)
+    try:
+        for d in decos:
+            twin = d(twin)
+    except Exception:  # noqa: whatever the first application did, the second is judged on its own
+        pass
+    for d in decos:
+        f = d(f)
+    return f
 
 
 def model(form, shape, sel):
@@ -377,7 +392,14 @@ def eval_case(shape, form, sel, st, replaying=False):
     # bound method: only when the first parameter is a positional one the selection leaves alone
     first = shape[0] if shape else None
     if g is not f and first and first[1] in (PO, POK) and not first[2] and exp and exp[0][0] == first[0] and not _names_first(form, sel, first[0]):
-        holder = type('H', (object,), {'m': g, 't': twin})
+        # instances compare equal by value: a bound copy made for one must not serve another
+        holder = type('H', (object,), {'m': g, 't': twin, '__eq__': lambda self, other: type(other) is type(self),
+                                       '__hash__': lambda self: 7})
+        earlier = holder()
+        try:
+            earlier.m
+        except Exception:  # noqa: judged on the instance below
+            pass
         inst = holder()
         try:
             bsig = inspect.signature(inst.m)
@@ -402,6 +424,12 @@ def eval_case(shape, form, sel, st, replaying=False):
             nb += 1
             want = callsem.run_call(inst.t, a, k)
             got = callsem.run_call(inst.m, a, k)
+            if got[0] == 'ok' and isinstance(got[1], dict) and got[1].get(first[0]) is not inst:
+                st.violation('call-behaviour-differs-from-advertised-signature', case,
+                             dict(base, advertised=show(exp), call=callsem.describe_call(a, k), placement='bound method',
+                                  problem='the method ran with another (equal-comparing) instance as %s' % first[0]),
+                             {'form': form, 'placement': 'bound-identity'})
+                return
             if not callsem.same_outcome(want, got):
                 st.violation('call-behaviour-differs-from-advertised-signature', case,
                              dict(base, advertised=show(exp), call=callsem.describe_call(a, k),
